@@ -23,7 +23,7 @@ def run(ctx):
     for _ in range(nextra):
         k = 2 if rnd.random() < 0.7 else 3
         extra.append("<<" + ",".join(str(rnd.randrange(1 << 20)) for _ in range(k)) + ">>")
-    path, _ = ctx.tlc_gen("wire", "ReqFramingGen", consts={"SECONDS": seconds, "EXTRA": "<<" + ",".join(extra) + ">>"},
+    path, _ = ctx.tlc_gen("wire", "ReqFramingGen", consts={"SECONDS": seconds, "EXTRA": "<<" + ",".join(extra) + ">>", "STRIDE": 1},
                           workers=4, timeout=1800)
     if not path:
         raise Infra("ReqFramingGen wrote no vectors")
